@@ -122,6 +122,9 @@ func init() {
 		Real:   []string{"nitro.EncodeItem/DecodeItem, rawFileWriter/rawFileReader through StoreToDisk/LoadFromDisk, KVToBytes/KVFromBytes/CompareKV"}, Stubbed: []string{"io.Writer/io.Reader below the codec (simulated stream with chunking and faults)"},
 		Assume: []string{"items <= 70000 bytes"},
 	})
+	// failed backups must leave the collector able to work (oracle inside the write-fault enumeration)
+	c06 := checkDefs["C06"]
+	c06.Scens = append(c06.Scens, scenBudget{"wfault", 300, 15000})
 	c07 := checkDefs["C07"]
 	c07.Scens = append(c07.Scens, scenBudget{"backup", 5000, 150000})
 	c04.Scens = append(c04.Scens, scenBudget{"backup", 4000, 120000}, scenBudget{"backup_race", 6000, 200000})
